@@ -42,6 +42,8 @@ def stepOp (acc : St × List String × List String) (op : String) : St × List S
   | ["failw", n, sh] => ({ s with failW := n :: s.failW, named := (n, shapeCount sh) :: s.named.filter (·.1 != n) }, out, keep)
   | ["failu", n, sh] => ({ s with failU := n :: s.failU, named := (n, shapeCount sh) :: s.named.filter (·.1 != n) }, out, keep)
   | ["okw", n] => ({ s with failW := s.failW.filter (· != n) }, out, keep)
+  -- `hookn:<kind>` (a kind change from inside the watcher's creation) is outside the model: such scripts are judged by the oracle only
+  | ["hookn", _] => (s, out, keep)
   | ["failu", n] => ({ s with failU := n :: s.failU }, out, keep)
   | _ => (s, out ++ ["bad-op"], keep)
 
